@@ -561,12 +561,46 @@ def _mutates_param(repo: Repo, fn: FuncInfo, pname: str, depth: int = 0):
             if tgt is not None and tgt not in aliases:
                 aliases.add(tgt)
                 changed = True
+    # a name that is re-bound to something that is not the parameter's object (`xs = set(xs)`, `xs = xs - {x}`) stands for a
+    # private object from there on: changes made through it further down do not reach the caller (textual order; a VIOLATION
+    # needs a change that certainly is one)
+    rebound: dict[str, int] = {}
     for n in nodes:
-        if isinstance(n, ast.Call) and isinstance(n.func, ast.Attribute) and n.func.attr in _MUTATING and is_alias(n.func.value):
+        tgt = None
+        if isinstance(n, ast.Assign) and len(n.targets) == 1 and isinstance(n.targets[0], ast.Name) and not is_alias(n.value):
+            tgt = n.targets[0].id
+        elif isinstance(n, ast.AnnAssign) and isinstance(n.target, ast.Name) and n.value is not None and not is_alias(n.value):
+            tgt = n.target.id
+        if tgt in aliases:
+            rebound[tgt] = min(rebound.get(tgt, n.lineno), n.lineno)
+    # ... unless the name is (again) bound to the parameter's object further down (`else: xs = param`)
+    for n in nodes:
+        tgt = None
+        if isinstance(n, ast.Assign) and len(n.targets) == 1 and isinstance(n.targets[0], ast.Name) and is_alias(n.value):
+            tgt = n.targets[0].id
+        elif isinstance(n, ast.AnnAssign) and isinstance(n.target, ast.Name) and n.value is not None and is_alias(n.value):
+            tgt = n.target.id
+        if tgt in rebound and n.lineno >= rebound[tgt]:
+            del rebound[tgt]
+
+    def shared_at(e, line: int) -> bool:
+        if isinstance(e, ast.Name):
+            return e.id in aliases and not (e.id in rebound and line > rebound[e.id])
+        if isinstance(e, ast.IfExp):
+            return shared_at(e.body, line) or shared_at(e.orelse, line)
+        if isinstance(e, ast.BoolOp):
+            return any(shared_at(x, line) for x in e.values)
+        if isinstance(e, ast.NamedExpr):
+            return shared_at(e.value, line)
+        return False
+
+    for n in nodes:
+        line = getattr(n, "lineno", 0)
+        if isinstance(n, ast.Call) and isinstance(n.func, ast.Attribute) and n.func.attr in _MUTATING and shared_at(n.func.value, line):
             return fn, n
-        if isinstance(n, ast.AugAssign) and isinstance(n.target, ast.Name) and n.target.id in aliases:
+        if isinstance(n, ast.AugAssign) and isinstance(n.target, ast.Name) and shared_at(n.target, line):
             return fn, n
-        if isinstance(n, (ast.Subscript,)) and isinstance(n.ctx, (ast.Store, ast.Del)) and is_alias(n.value):
+        if isinstance(n, (ast.Subscript,)) and isinstance(n.ctx, (ast.Store, ast.Del)) and shared_at(n.value, line):
             return fn, n
     for n in nodes:
         if not isinstance(n, ast.Call):
